@@ -10,14 +10,24 @@ def showEv : Ev → String
   | .warn m => s!"warn{m}"
   | .returned => "ret"
 
-def parseOp (j : Json) : Except String OpR := do
+/-- An op of the sequential histories: one of `OpR`, or an extraction during whose scan modules appear. -/
+inductive DOp
+  | r (op : OpR)
+  | appear (ms : List Nat)
+
+def parseOp (j : Json) : Except String DOp := do
   let a ← jArr j
   match (← jStr a[0]!) with
-  | "insert" => pure (.insert (← jNat a[1]!))
-  | "remove" => pure (.remove (← jNat a[1]!))
-  | "extract" => pure (.extract [])
-  | "extractR" => pure (.extract (← (← jArr a[1]!).toList.mapM jNat))     -- these modules vanish during the scan
+  | "insert" => pure (.r (.insert (← jNat a[1]!)))
+  | "remove" => pure (.r (.remove (← jNat a[1]!)))
+  | "extract" => pure (.r (.extract []))
+  | "extractR" => pure (.r (.extract (← (← jArr a[1]!).toList.mapM jNat)))     -- these modules vanish during the scan
+  | "extractA" => pure (.appear (← (← jArr a[1]!).toList.mapM jNat))           -- these modules appear during the scan
   | t => throw s!"bad op {t}"
+
+def dstep (st : Static) (g : GState) : DOp → GState
+  | .r op => stepR st g op
+  | .appear ms => addGlueA st g ms
 
 /-- Step thread `t` until it has popped for module `m` (its glue call is pending). -/
 def untilPopped (st : Static) (c : SS.GlueConc.CState) (t m : Nat) : Nat → SS.GlueConc.CState
@@ -61,7 +71,7 @@ def handle (j : Json) : Except String String := do
     pure (" ".intercalate (c.g.log.map showEv))
   | .error _ =>
     let ops ← (← jArr (← jField j "ops")).toList.mapM parseOp
-    let g := runOpsR st ops
+    let g := ops.foldl (dstep st) GState.init
     pure (" ".intercalate (g.log.map showEv))
 
 end SS.Drv.C17
